@@ -10,6 +10,7 @@ import (
 	"encoding/hex"
 	"fmt"
 	"go/printer"
+	"go/token"
 	"os"
 	"os/exec"
 	"path/filepath"
@@ -33,6 +34,7 @@ type Driver struct {
 	start     time.Time
 	queries   []*Query
 	notProved []string // functions outside the subset
+	unreachable []string // functions of the front-end copy that its grammar cannot reach (not verified, listed)
 	funcsDone []funcInfo
 	known     []KnownFinding
 	knownHit  map[string]bool
@@ -219,6 +221,9 @@ func (d *Driver) Run() int {
 	}
 	if (d.Prop == "" || d.Prop == "C04") && strings.Contains(","+d.Targets+",", ",rt,") && d.OnlyFunc == "" && d.OnlyVariant == "" {
 		d.extraC04(loader, filepath.Join(d.Work, "rt"))
+	}
+	if (d.Prop == "" || d.Prop == "C04" || d.Prop == "C13" || d.Prop == "C19") && strings.Contains(","+d.Targets+",", ",rt,") && d.OnlyFunc == "" && d.OnlyVariant == "" {
+		d.extraInst(filepath.Join(d.Work, "rt"))
 	}
 	if d.wantsBoundedSCC() {
 		d.extraBoundedSCC()
@@ -407,6 +412,52 @@ func (d *Driver) rtJobs(loader *Loader) ([]*job, error) {
 		h.Write([]byte(typeDeclHash(pkg)))
 		insts = append(insts, inst{v, pkg, cs, hex.EncodeToString(h.Sum(nil))})
 	}
+	// The runtime copy inside /repo/pigeon.go (the grammar front-end: the standard instantiation, generated by
+	// an earlier build of the tool). It is checked against the same contracts: a function whose text and type
+	// declarations equal an instantiation verified on this run is discharged by identity (it joins that job's
+	// variant list), any other is verified on its own. Functions for node kinds that do not occur in the
+	// front-end's grammar literal are unreachable there (parseExpr dispatches on the node's type) and are
+	// listed as such instead of being verified.
+	tmplNames := map[string]bool{}
+	for _, in := range insts {
+		for n := range declNames(in.pkg) {
+			tmplNames[n] = true
+		}
+	}
+	for i := range insts {
+		h := sha256.New()
+		h.Write([]byte(dumpContracts(insts[i].cs)))
+		h.Write([]byte(typeDeclHashNames(insts[i].pkg, tmplNames)))
+		insts[i].csHash = hex.EncodeToString(h.Sum(nil))
+	}
+	var feAbsent map[string]bool
+	if (d.OnlyVariant == "" || d.OnlyVariant == "pigeon.go") && os.Getenv("GOVC_NO_FRONTEND") == "" {
+		if _, err := os.Stat(filepath.Join(d.Repo, "pigeon.go")); err == nil {
+			pkg, err := loader.LoadDir(d.Repo, "verif/rt/frontend", "rt[pigeon.go]", nil)
+			if err != nil {
+				d.notProved = append(d.notProved, fmt.Sprintf("rt[pigeon.go]: the front-end's runtime copy does not type-check on its own: %v", err))
+				fmt.Fprintf(os.Stderr, "NOT-PROVED rt[pigeon.go]: %v\n", err)
+			} else {
+				pkg.Flags = variantFlags("o0b0l0s0")
+				cs := NewContracts()
+				for _, f := range d.contractFiles("rt") {
+					if err := cs.LoadFile(f, pkg.Flags); err != nil {
+						return nil, err
+					}
+				}
+				h := sha256.New()
+				h.Write([]byte(dumpContracts(cs)))
+				h.Write([]byte(typeDeclHashNames(pkg, tmplNames)))
+				insts = append(insts, inst{"pigeon.go", pkg, cs, hex.EncodeToString(h.Sum(nil))})
+				feAbsent = absentNodeKinds(pkg)
+				if os.Getenv("GOVC_FEDEBUG") != "" {
+					for _, in := range insts {
+						fmt.Fprintln(os.Stderr, "FEDEBUG", in.v, in.csHash, typeDeclHashNames(in.pkg, tmplNames))
+					}
+				}
+			}
+		}
+	}
 	// nolint instantiations: token streams must equal the plain ones (comments aside)
 	seen := map[string]*job{}
 	var jobs []*job
@@ -426,6 +477,13 @@ func (d *Driver) rtJobs(loader *Loader) ([]*job, error) {
 			if !contractMentions(fc, d.Prop) && !callsTagged(in.pkg, k, in.cs, d.Prop) {
 				continue
 			}
+			if in.v == "pigeon.go" && strings.HasPrefix(k, "parser.parse") {
+				kind := strings.TrimPrefix(k, "parser.parse")
+				if len(kind) > 0 && feAbsent[strings.ToLower(kind[:1])+kind[1:]] {
+					d.unreachable = append(d.unreachable, "rt[pigeon.go]:"+k+" (no "+strings.ToLower(kind[:1])+kind[1:]+" node in the front-end's grammar literal)")
+					continue
+				}
+			}
 			id := k + "|" + hashNode(in.pkg, k) + "|" + in.csHash
 			if j, ok := seen[id]; ok {
 				j.variants = append(j.variants, in.v)
@@ -437,6 +495,108 @@ func (d *Driver) rtJobs(loader *Loader) ([]*job, error) {
 		}
 	}
 	return jobs, nil
+}
+
+// declNames: names declared by the non-function declarations of a package (the probe grammar aside)
+func declNames(pkg *Pkg) map[string]bool {
+	m := map[string]bool{}
+	for _, f := range pkg.Files {
+		for _, dcl := range f.Decls {
+			gd, ok := dcl.(*ast.GenDecl)
+			if !ok || isVarG(dcl) {
+				continue
+			}
+			for _, sp := range gd.Specs {
+				switch x := sp.(type) {
+				case *ast.TypeSpec:
+					m[x.Name.Name] = true
+				case *ast.ValueSpec:
+					for _, n := range x.Names {
+						m[n.Name] = true
+					}
+				}
+			}
+		}
+	}
+	return m
+}
+
+// typeDeclHashNames hashes the declarations (specs) of pkg whose names are in names, in source order.
+func typeDeclHashNames(pkg *Pkg, names map[string]bool) string {
+	var buf bytes.Buffer
+	for _, f := range pkg.Files {
+		for _, dcl := range f.Decls {
+			gd, ok := dcl.(*ast.GenDecl)
+			if !ok || isVarG(dcl) || gd.Tok == token.IMPORT {
+				continue
+			}
+			for _, sp := range gd.Specs {
+				keep := false
+				switch x := sp.(type) {
+				case *ast.TypeSpec:
+					keep = names[x.Name.Name]
+				case *ast.ValueSpec:
+					for _, n := range x.Names {
+						if names[n.Name] {
+							keep = true
+						}
+					}
+				}
+				if keep {
+					// trailing and doc comments of the spec (the -nolint markers) are not code
+					switch x := sp.(type) {
+					case *ast.TypeSpec:
+						x.Comment, x.Doc = nil, nil
+					case *ast.ValueSpec:
+						x.Comment, x.Doc = nil, nil
+					}
+					buf.WriteString(gd.Tok.String() + " ")
+					printer.Fprint(&buf, pkg.Fset, sp)
+					buf.WriteString("\n")
+				}
+			}
+		}
+	}
+	if d := os.Getenv("GOVC_FEDEBUG"); d != "" {
+		os.WriteFile(filepath.Join(d, "decls_"+sanitize(pkg.Name)+".txt"), buf.Bytes(), 0o644)
+	}
+	h := sha256.Sum256(buf.Bytes())
+	return hex.EncodeToString(h[:])
+}
+
+// absentNodeKinds: the expression node types of the runtime (struct types with a parse<Kind> method of parser)
+// that do not occur in the package's grammar literal `var g`.
+func absentNodeKinds(pkg *Pkg) map[string]bool {
+	present := map[string]bool{}
+	for _, f := range pkg.Files {
+		for _, dcl := range f.Decls {
+			if !isVarG(dcl) {
+				continue
+			}
+			ast.Inspect(dcl, func(n ast.Node) bool {
+				if cl, ok := n.(*ast.CompositeLit); ok {
+					if id, ok := cl.Type.(*ast.Ident); ok {
+						present[id.Name] = true
+					}
+				}
+				return true
+			})
+		}
+	}
+	absent := map[string]bool{}
+	for k := range pkg.Funcs {
+		if strings.HasPrefix(k, "parser.parse") {
+			kind := strings.TrimPrefix(k, "parser.parse")
+			if kind == "" {
+				continue
+			}
+			kind = strings.ToLower(kind[:1]) + kind[1:]
+			if pkg.Types.Scope().Lookup(kind) != nil && !present[kind] {
+				absent[kind] = true
+			}
+		}
+	}
+	return absent
 }
 
 func typeDeclHash(pkg *Pkg) string {
